@@ -67,9 +67,24 @@ def _run(ck, m):
 
     # notifiers: bodies that take Watchers.map themselves and try_send on what they find there
     notifiers = set()
+    # functions that are handed a &Sender<String> and a message and queue it (an extracted `send_to_watcher`): a call of one is a send;
+    # value = the send inside goes through a fresh clone of the parameter
+    sender_helpers = {}
     for b in node_bodies(m):
+        if b.kind not in ('fn', 'method') or not any('mpsc::Sender<' in x for x in b.locals[1:b.argc + 1]):
+            continue
+        ts_ = [(bi, t) for bi, t in b.calls() if callee_decl(t).endswith('mpsc::Sender::try_send') and not is_log(t)]
+        if len(ts_) != 1 or any(callee_decl(t) in locks.LOCK_FNS for _, t in b.calls()):
+            continue
+        fresh_ = all(any(r[0] == 'call' and callee_decl(b.term(r[1])) == 'std::clone::Clone::clone' for r in origins(b, t['args'][0], stop_at_calls=True))
+                     for _, t in ts_)
+        sender_helpers[b.id] = fresh_
+    is_send = lambda t: (callee_decl(t).endswith('mpsc::Sender::try_send') or callee(t) in sender_helpers) and not is_log(t)
+    for b in node_bodies(m):
+        if b.id in sender_helpers:
+            continue
         locks_w = any(callee_decl(t) in locks.LOCK_FNS and 'Watchers.map' in locks.lock_id_of(b, t['args'][0]) for _, t in b.calls())
-        sends = any(callee_decl(t).endswith('mpsc::Sender::try_send') and not is_log(t) for _, t in b.calls())
+        sends = any(is_send(t) for _, t in b.calls())
         if locks_w and sends:
             notifiers.add(b.id)
     ck.floor('C03.a', len(notifiers), 3, 'notifier bodies (lock Watchers.map and send)')
@@ -184,10 +199,16 @@ def _run(ck, m):
     for nid in sorted(notifiers):
         b = P.bodies[nid]
         loops = natural_loops(b)
-        sends = [(bi, t) for bi, t in b.calls() if callee_decl(t).endswith('mpsc::Sender::try_send') and not is_log(t)]
+        sends = [(bi, t) for bi, t in b.calls() if is_send(t)]
         used = {}
         for bi, t in sends:
             nf += 1
+            if callee(t) in sender_helpers:
+                okh_ = sender_helpers[callee(t)]
+                ck.ob('C03.f', short(b.id), 'fresh-clone:%d' % (len([x for x in sends if x[0] <= bi])), okh_,
+                      'sent by %s, which clones the sender for its one send' % short(callee(t)) if okh_ else
+                      '%s sends on the sender it was handed without cloning it' % short(callee(t)), b.loc(bi))
+                continue
             clones = [r[1] for r in origins(b, t['args'][0], stop_at_calls=True)
                       if r[0] == 'call' and callee_decl(b.term(r[1])) == 'std::clone::Clone::clone']
             ok = bool(clones)
@@ -350,6 +371,15 @@ def _run(ck, m):
             if t['f'].get('dargs', '').endswith('::insert') and 'Sender' in t['f'].get('dargs', ''):
                 calls, params = locks.backward_slice(b, t['args'][2])
                 gets = [x for x in calls if callee_decl(b.term(x)) == 'std::collections::HashMap::get']
+                # ... or through a private helper that is handed the guarded map and returns the list it finds there
+                # (`registered_senders(&watchers, key)`)
+                helpers_ = {h.id for h in P.private_helpers(b)}
+                for x in calls:
+                    hb_ = P.bodies.get(callee(b.term(x)))
+                    if hb_ is not None and hb_.id in helpers_ and any('Sender' in a_ and 'HashMap' in a_ for a_ in hb_.locals[1:hb_.argc + 1]):
+                        hc_, _hp = locks.backward_slice(hb_, {'c': {'l': 0}})
+                        if any(callee_decl(hb_.term(y)) == 'std::collections::HashMap::get' for y in hc_):
+                            gets.append(x)
                 pushes = [x for x in calls if callee_decl(b.term(x)) == 'std::vec::Vec::push']
                 ok_list = bool(gets)
                 for x in pushes:
